@@ -120,9 +120,14 @@ fn check(g: &G, st: &mut Stats) -> CheckResult {
         G::Temperature { milli_kelvin, big, which } => {
             let t = if *big { *milli_kelvin as f64 * 0.5 } else { *milli_kelvin as f64 / 1000.0 };
             let tol = 1e-12 * t.max(500.0);
+            // the temperature is written in kelvin or in a prefixed kelvin (the functions take any
+            // Temperature, whatever unit it is carried in)
+            let (unit, factor) = [("K", 1.0), ("mK", 1e-3), ("kK", 1e3), ("µK", 1e-6), ("kelvin", 1.0), ("millikelvin", 1e-3)][(*milli_kelvin % 6) as usize];
+            let q = format!("({} {unit})", lit(t / factor));
+            let tol = if unit == "K" || unit == "kelvin" { tol } else { tol * 4.0 + 1e-9 };
             let (code, want, label) = match which % 4 {
-                0 => (format!("let xx_r = from_celsius(({} K) -> °C) / K", lit(t)), t, "K->°C->K"),
-                1 => (format!("let xx_r = from_fahrenheit(({} K) -> °F) / K", lit(t)), t, "K->°F->K"),
+                0 => (format!("let xx_r = from_celsius({q} -> °C) / K"), t, "K->°C->K"),
+                1 => (format!("let xx_r = from_fahrenheit({q} -> °F) / K"), t, "K->°F->K"),
                 2 => {
                     let c = t - 273.15;
                     (format!("let xx_r = from_fahrenheit(({} °C) -> °F) -> °C", lit(c)), c, "°C->°F->°C")
@@ -333,7 +338,7 @@ fn check_mixed(code: &str, units: &[usize], st: &mut Stats) -> CheckResult {
 fn run(cfg: &Cfg) -> Report {
     let mut rep = Report::new(
         cfg,
-        "proptest values over each documented inverse pair's domain: kelvin 0-2000 K (mK steps) and up to 1e6 K through °C and °F and between them; 19 scalar inverse compositions (trigonometric, hyperbolic, exp/log in bases e, 10, 2, sqrt/sqr, cbrt/cube) on their principal domains, a stated distance from ill-conditioned ends; Unix time in s/ms/µs over ±year 9999 (µs within ±2^53); instants (second + nanosecond, half of them within 95 years of 1970; also whole-microsecond instants through the microsecond functions) through unixtime and Julian date both ways; unit_list with 2-4 same-dimension prelude units of distinct size and the fixed conversions DMS, DM, feet_and_inches, pounds_and_ounces. Oracle: g(f(x)) = x within a per-pair tolerance derived from the conditioning (stated per pair in the harness; exact for s/ms/µs Unix time while the microsecond count is below 2^53, 1 unit beyond, 1e-4 s for Julian dates); mixed units: parts are in the listed units in descending order, all but the last are whole numbers, non-negative for non-negative input, and add up to the input (1e-9). non-trivial = x not 0/1 (mixed units: >= 2 non-zero parts); distinct = program text",
+        "proptest values over each documented inverse pair's domain: temperatures 0-2000 K (mK steps) and up to 1e6 K, written in K, mK, µK, kK, kelvin or millikelvin, through °C and °F and between them; 19 scalar inverse compositions (trigonometric, hyperbolic, exp/log in bases e, 10, 2, sqrt/sqr, cbrt/cube) on their principal domains, a stated distance from ill-conditioned ends; Unix time in s/ms/µs over ±year 9999 (µs within ±2^53); instants (second + nanosecond, half of them within 95 years of 1970; also whole-microsecond instants through the microsecond functions) through unixtime and Julian date both ways; unit_list with 2-4 same-dimension prelude units of distinct size and the fixed conversions DMS, DM, feet_and_inches, pounds_and_ounces. Oracle: g(f(x)) = x within a per-pair tolerance derived from the conditioning (stated per pair in the harness; exact for s/ms/µs Unix time while the microsecond count is below 2^53, 1 unit beyond, 1e-4 s for Julian dates); mixed units: parts are in the listed units in descending order, all but the last are whole numbers, non-negative for non-negative input, and add up to the input (1e-9). non-trivial = x not 0/1 (mixed units: >= 2 non-zero parts); distinct = program text",
     );
     let cases = cfg.tier.pick(12000u32, 150000u32);
     rep.absorb(run_proptest(
